@@ -102,3 +102,13 @@ add("C11", "exploration",
     "One data post and one poll outstanding at a time (as the browser shim does); polls are only issued while a message is outstanding, so "
     "the 20 s poll timeout is not exercised here. JSON numbers are float64-exact; version 0 carries text only.",
     "stateful property-based testing (rapid): generated message/batching sequences against model queues; JSON-value oracle for injection; native go fuzzing", "3/C11")
+add("C12", "exploration",
+    "Generated call histories over three session slots (open, data/poll/close with valid, unknown, already-closed, malformed and wrongly typed "
+    "arguments, backend sends and closes) and concurrent groups of 2-6 calls on one session released from a barrier run against "
+    "websockets.Proxy in-process under -race; a state-machine model of the session table yields the allowed status set per call; every "
+    "call must be answered (a panic is caught per call, an unanswered call after 15 s is a wedge); the backend must observe client closes, "
+    "and polls after a backend close must deliver the queued messages and then 400. Interleavings inside a group are sampled (hundreds of "
+    "groups per run), not enumerated.",
+    "Polls are only issued when a message or a close is pending (the 20 s / 408 path is sampled once in the thorough tier). For calls racing "
+    "a close, or following an asynchronous backend close, the allowed set is {200,400}.",
+    "stateful property-based testing (rapid): generated call histories and barrier-released concurrent groups against a session-table model", "3/C12")
